@@ -9,7 +9,7 @@ cd $V/coq
 [ -f Makefile ] || coq_makefile -f _CoqProject -o Makefile >/dev/null
 timeout 3000 make -j16 ${MAKE_TARGETS:-} 2>&1 | grep -v 'conda' | grep -v '^COQ' || true
 cd $V/.cache/model
-if [ ! -f driver ] || [ $V/coq/File.vo -nt driver ] || [ $V/coq/Charset.vo -nt driver ] || [ $V/model/driver.ml -nt driver ] || [ $V/coq/Extract.v -nt driver ]; then
+if [ ! -f driver ] || [ -n "$(find $V/coq -maxdepth 1 -name '*.vo' -newer driver | head -1)" ] || [ -n "$(find $V/coq/Gen -name '*.vo' -newer driver | head -1)" ] || [ $V/model/driver.ml -nt driver ] || [ $V/coq/Extract.v -nt driver ]; then
   timeout 600 coqc -Q $V/coq Sbdf $V/coq/Extract.v -o $V/.cache/model/Extract.vo >/dev/null
   cp $V/model/driver.ml .
   ocamlfind ocamlopt -O3 -w -a -package str model.mli model.ml driver.ml -o driver 2>&1 | grep -v conda || true
